@@ -350,7 +350,24 @@ func tokenOf(s string) string {
 // argument list) to the canonical driver value, the way database/sql does:
 // nil pointers are NULL, pointers are dereferenced, driver.Valuer is called,
 // integers widen to int64, floats to float64.
+// NamedLeaf is a value bound under a driver-level name (sql.NamedArg / driver.NamedValue.Name).
+type NamedLeaf struct {
+	Name string
+	V    interface{}
+}
+
+// NormArg normalizes one driver argument.
+func NormArg(name string, v interface{}) interface{} {
+	if name != "" {
+		return NamedLeaf{Name: name, V: Norm(v)}
+	}
+	return Norm(v)
+}
+
 func Norm(v interface{}) interface{} {
+	if na, ok := v.(sql.NamedArg); ok {
+		return NamedLeaf{Name: na.Name, V: Norm(na.Value)}
+	}
 	for depth := 0; depth < 8; depth++ {
 		if v == nil {
 			return nil
@@ -393,6 +410,13 @@ func Norm(v interface{}) interface{} {
 
 // Same compares two normalized driver values.
 func Same(a, b interface{}) bool {
+	if x, ok := a.(NamedLeaf); ok {
+		y, ok := b.(NamedLeaf)
+		return ok && x.Name == y.Name && Same(x.V, y.V)
+	}
+	if _, ok := b.(NamedLeaf); ok {
+		return false
+	}
 	switch x := a.(type) {
 	case nil:
 		if y, ok := b.([]byte); ok {
@@ -423,6 +447,8 @@ func Render(vs []interface{}) string {
 	parts := make([]string, len(vs))
 	for i, v := range vs {
 		switch x := v.(type) {
+		case NamedLeaf:
+			parts[i] = ":" + x.Name + "=" + Render([]interface{}{x.V})
 		case nil:
 			parts[i] = "NULL"
 		case string:
